@@ -39,6 +39,9 @@ def run(ded, repo, tier):
     specs = [dict(module='contracts.oto', repo=repo, q=q, tier=tier, clause_of={'*': 'onetoone_inverse'}) for q in m.FUNCS]
     specs += [dict(module='contracts.m2m', repo=repo, q=q, tier=tier, timeout=40 if tier == 'quick' else 120,
                    clause_of={'*': 'manytomany_transposed'}) for q in m2m.FUNCS]
+    from contracts import m2m_readers
+    specs += [dict(module='contracts.m2m_readers', repo=repo, q=q, tier=tier, clause_of={'*': 'manytomany_transposed'})
+              for q in m2m_readers.FUNCS]
     driver.run_parallel(ded, specs)
     src = front.load(repo, m.FILE)
     missing, raiser = frozen_closure(src)
@@ -51,7 +54,7 @@ def run(ded, repo, tier):
                            'refuted' if missing else 'proved', backend='ast', detail='not blocked: %r' % missing if missing else '',
                            model=dict(missing=missing)))
     ded.assume('keys and values are opaque hashable values with total, side-effect-free ==/hash')
-    ded.trust('not under contract (bounded only): OneToOne.__init__/copy/fromkeys/unique (update and |= are under contract: they preserve the invariant for any argument), ManyToMany.__init__/get/__getitem__/iteritems/__eq__ and update() from another ManyToMany (add, remove, __setitem__, __delitem__, replace and update from pairs or a mapping are under contract), FrozenDict.__hash__/updated/copy/pickle')
+    ded.trust('not under contract (bounded only): OneToOne.__init__/copy/fromkeys/unique (update and |= are under contract: they preserve the invariant for any argument), ManyToMany.__init__/get/__getitem__/keys/__iter__/__eq__, the completeness and no-repetition half of iteritems, and update() from another ManyToMany (add, remove, __setitem__, __delitem__, replace, update from pairs or a mapping, __contains__, __len__ and the soundness half of iteritems - every yielded item is a pair of the relation - are under contract), FrozenDict.__hash__/updated/copy/pickle')
     ded.assume('ManyToMany.update: the argument is not itself a ManyToMany (type(x) of an opaque value is not the class under verification); '
                'ManyToMany.__setitem__: set(vals) is a fresh set whose members are a function of vals; set difference, in-place difference, '
                'set.update and iteration over a set are encoded pointwise with lengths constrained only by len >= 0 and len == 0 iff empty')
